@@ -429,7 +429,13 @@ struct Lower
                     i++; bi++;
                 }
             }
-            for(auto* F : RD->fields()) { if(i >= IL->getNumInits()) break; s += ", " + initInto(IL->getInit(i), target + "." + fieldName(F)); i++; }
+            for(auto* F : RD->fields())
+            {
+                if(i >= IL->getNumInits()) break;
+                // value-initialised members are already zero through the leading `= {0}`
+                if(!isa<ImplicitValueInitExpr>(IL->getInit(i)->IgnoreImplicit())) s += ", " + initInto(IL->getInit(i), target + "." + fieldName(F));
+                i++;
+            }
             return s + ")";
         }
         if(I->getType()->isRecordType() && I->isPRValue())
